@@ -53,9 +53,9 @@ JudgeC14(rec) ==
           <<(class = "wellformed" /\ f.ok) => (Range(f.ar_names) = {ms[i].name : i \in 1..Len(ms)} /\ Len(f.ar_names) = Len(ms)),
             "index of ar members differs from the archive">>,
           <<(class = "wellformed" /\ f.ok) => TarAgrees(f, d.files), "data tar stream differs from the packaged files">>,
-          \* (the harness writes every ar header with mtime 1433153120, owner 123456, group 654321, mode 37777775: full-width columns)
+          \* (the harness writes every ar header with mtime 5656124762, owner 123456, group 654321, mode 37777775: full-width columns)
           <<(class = "wellformed" /\ f.ok) => \A k \in 1..Len(f.ar_meta) :
-                f.ar_meta[k].mtime = 1433153120 /\ f.ar_meta[k].uid = 123456 /\ f.ar_meta[k].gid = 654321 /\ f.ar_meta[k].mode = "37777775",
+                f.ar_meta[k].mtime = "5656124762" /\ f.ar_meta[k].uid = 123456 /\ f.ar_meta[k].gid = 654321 /\ f.ar_meta[k].mode = "37777775",
             "the index of ar members records other metadata than the archive's headers">>,
           <<(class = "wellformed" /\ f.ok) => (~rec.overlap.panic /\ rec.overlap.ok /\ TarAgrees([tar |-> rec.overlap.tar1], d.files)
                                                /\ TarAgrees([tar |-> rec.overlap.tar2], d.files)),
